@@ -9,7 +9,7 @@ Lemmas about the spec functions (independent of the code): F_k is injective on t
 """
 from core import VC
 from nvwp import V, AND, IMP, lit
-from wplib import IdEnvWP, h_std_get, h_array_fill, declare_array, array_name, load, reach_vc, array_len, STD_ARRAY_MEMBERS, STD_NUMERIC_CALLS, iter_hook
+from wplib import IdEnvWP, h_std_get, h_array_fill, declare_array, array_name, load, reach_vc, array_len, STD_ARRAY_MEMBERS, STD_NUMERIC_CALLS, iter_hook, aggr_hook, STD_COPY_CALLS
 import re
 import astload
 import nvwp
@@ -148,6 +148,41 @@ def mk(name, decl, select, R, post, about, idx_names=None, signed=False, end_inc
     return vcs, {'c_name': name, 'cxx': decl, 'file': HDR, 'line': fn.get('loc', {}).get('line'), 'sha': astload.file_hash(HDR)}
 
 
+def mk_builder(name, decl, select, post, about):
+    """make_dims / cat_dims: the dims BUILDERS.  No tensor invariant is assumed on their inputs (they are plain value
+    shuffles: any long values); aggregate initialisation of std::array and std::copy between std::arrays are wplib vocabulary"""
+    docs, fn = load(TU, FLT, decl, select)
+    wp = IdEnvWP(name, calls=CALLS + STD_COPY_CALLS, members=MEMBERS, hooks=[iter_hook, aggr_hook], bindings=nvwp.template_bindings(docs, fn))
+    keys = wp.bind_params(fn)
+    wp.args = []
+    for key, p in keys:
+        n = array_len(p['type'])
+        if n is not None:
+            declare_array(wp, key, n)
+            wp.args.append([wp.env[f'{key}.{k}'].t for k in range(n)])
+        else:
+            wp.env[key] = wp.fresh('Int', key, 'long')
+            wp.assume(wp.in_range(wp.env[key].t, 'long'))
+            wp.args.append(wp.env[key].t)
+    wp.post = post
+    wp.run(fn, HDR)
+    if wp.returns == 0:
+        raise astload.ExtractionError(f'{name}: no return path')
+    vcs = wp.vcs(name, HDR, about)
+    vcs.append(reach_vc(wp, name, HDR))
+    return vcs, {'c_name': name, 'cxx': decl, 'file': HDR, 'line': fn.get('loc', {}).get('line'), 'sha': astload.file_hash(HDR)}
+
+
+def post_array(want):
+    """the returned array has exactly len(want(wp)) elements and element k is want(wp)[k]"""
+    def post(wp, rv):
+        w = want(wp)
+        if rv is None or rv.s != 'Array' or rv.c != len(w):
+            return [(f'returns an array of {len(w)} extents', 'false')]
+        return [(f'result[{k}] == {lab}', f'(= {wp.env[f"{rv.t}.{k}"].t} {t})') for k, (lab, t) in enumerate(w)]
+    return post
+
+
 def sel(targs=None, nparams=None):
     def s(d):
         ta = astload.template_args(d)
@@ -258,6 +293,15 @@ def build(tier):
             add(mk(f'get_index0<0,{R}>/1 end-inclusive', 'get_index0', sel([0, R], 2), R, post_end, 'offset of a row index in [0, dims[0]]', end_inclusive=True))
             add(mk(f'index0<{R}>/1 end-inclusive', 'index0', sel([R], 2), R, post_end, 'offset of a row index in [0, dims[0]]', end_inclusive=True))
 
+    # make_dims(sizes...) == (sizes...) for 1..5 sizes; cat_dims(size, dims) == (size, dims[0], .., dims[R-1]) for R = 1..4
+    for N in (1, 2, 3, 4, 5):
+        add(mk_builder(f'make_dims<{N}>', 'make_dims', lambda d, N=N: bool(astload.template_args(d)) and len(astload.param_types(d)) == N,
+                       post_array(lambda wp: [(f'sizes[{k}]', t) for k, t in enumerate(wp.args)]), 'dims from a list of sizes'))
+    for R in (1, 2, 3, 4):
+        add(mk_builder(f'cat_dims<{R}>', 'cat_dims', sel([R], 2),
+                       post_array(lambda wp: [('size', wp.args[0])] + [(f'dims[{k}]', t) for k, t in enumerate(wp.args[1])]),
+                       'dims with one more leading extent'))
+
     vcs += lemmas()
     import tspec
     import cspec
@@ -266,7 +310,7 @@ def build(tier):
     vcs += tv
     fns += tf
     return {
-        'targets': cspec.build() + sspec.build(), 'vcs': vcs, 'functions': fns,
+        'targets': cspec.build() + sspec.build(tier), 'vcs': vcs, 'functions': fns,
         'decided': [
             'index/index0/size/dims0 and every recursion level of get_index/get_index0/product/get_dims0 for ranks 1..5 equal the row-major spec functions; no intermediate overflows given suffix products <= 2^62',
             'spec-function lemmas: row-major offset is injective on the index box, onto [0,size), lexicographically monotone',
@@ -288,14 +332,29 @@ def build(tier):
             'out(0) == in(0), out(g) == out(g-1) + in(g) at a ghost index, every access in bounds, no overflow and no narrowing of the running sum; ranks 2 and 3 (SMT): the index pattern of '
             'the recursion (slice i0 of the input integrated into slice i0 of the output, then output row i0-1 added to output row i0, whole rows, i0 >= 1 only, in that order); integral(): '
             'an empty tensor is left alone, a non-empty one is integrated exactly once',
+            'integral.h VALUES, rank 2 (SMT over Int, specs/C16/ispec.py; int8 -> int64 and int32 -> int64): on the real loop of integral_t<2>::get, at an arbitrary interior ghost cell (ga, gb): '
+            'I(ga, gb) == x(ga, gb) + I(ga-1, gb) + I(ga, gb-1) - I(ga-1, gb-1) once row ga is complete and at the end (loop invariant; the four output cells are followed through the row '
+            'integration -- the CBMC-proved rank-1 contract out(g) == out(g-1) + in(g) -- and through the row additions); overflow: every row addition adds the previously completed row to the row '
+            'integrated last and does not overflow int64 at an arbitrary ghost column (magnitude invariant |I(i0-1, gc)| <= M * (gc+1) * i0, from |out(g)| <= M * (g+1) of the rank-1 contract)',
             'algorithm.h remove_if(op, rank-1 tensor) (CBMC, the real loops under loop contracts, real array of symbolic length): every index of [0, size) is examined, in order, nothing outside; '
             'returns the number of kept elements; the ORIGINAL value of every kept element g ends at position #(kept before g) < ret (compaction in order); detail::size, detail::copy (rank 1); '
             'the same contract on the (rank 1, rank 2, rank 1) instantiation that solver/bundle.h uses (expanded pack, one target per tracked tensor; rows of the rank-2 tensor are opaque tokens)',
+            'dims.h builders (SMT, no invariant assumed on the inputs): make_dims(sizes...) for 1..5 sizes returns exactly the array (sizes...) (a narrowing pack expansion is refuted by its '
+            'conversion obligation); cat_dims(size, dims) for source ranks 1..4 returns exactly (size, dims[0], .., dims[R-1]); the make_dims call-site contract used by the tensor.h / storage.h '
+            'targets is now this proved clause',
+            'algorithm.h detail::copy on mapped tensors of rank 1, 2, 3 (SMT, tspec.py detail::copy<R>): for 0 <= isrc, idst < size<0>() exactly one block copy, destination offset idst * P_1, '
+            'source offset isrc * P_1, P_1 coefficients (rank 1: one element), both blocks inside the tensor\'s own buffer; the preconditions of the callees hold (tensor(i): index in range; '
+            'tensor_map_t = tensor_map_t: equal sizes -- the assert in tensor_marray_storage_t::copy -- and source range identical to or disjoint from the destination range). The row copy of the '
+            'three-tensor remove_if target (nv_copy_rows: rows as opaque tokens) is this proved contract, no longer an assumed one',
             'range.h: tensor_range_t(begin, end), make_range, begin, end, size (== end - begin, no overflow for ends in (-2^62, 2^62)), valid(n) <=> 0 <= begin < end <= n',
             'pointer level (CBMC, ranks 1..3): in tvector / ttensor / tmatrix / tslice the real expression ptr + offset0(..) stays inside the array object of size() doubles and the mapped range '
             '[pointer, pointer + extent) is addressable memory of that object; operator()(index) returns data() + index inside the object. The offsets\' contracts are ASSUMED there exactly as '
             'proved on the SMT side: the C requires-clause is generated from the same python clause functions (tmodel.ens_view / ens_slice) with the C names substituted',
-            'storage.h on REAL heap objects (CBMC, rank 1, double; specs/C16/storage.h, sspec.py): every constructor (default, sizes, dims, converting, copy, move), every assignment operator '
+            'storage.h on REAL heap objects (CBMC, double; rank 1: every operation below; rank 2, quick tier: sizes / dims constructors, owning <- / = constant and mutable views, owning copy / move '
+            'assignment, resize(sizes) / resize(dims), mapping <- owning, mapping element copies copy<mapping> / = owning, tensor_mem_t = tensor_map_t, the defaulted move assignment of tensor_map_t, '
+            'owning = view INSIDE its own buffer; rank 3, quick tier: owning = constant view, resize(dims), copy<mapping>; thorough tier: every operation at ranks 2 and 3.  At ranks >= 2 size() is '
+            'the NAMED product of the extents: an uninterpreted function of the extent tuple, so equal dims give equal sizes and nothing else is known -- an allocation / copy of size<0>() or dims[0] '
+            'coefficients instead of size() is refuted at rank 2 while it is invisible at rank 1; specs/C16/storage.h, sspec.py): every constructor (default, sizes, dims, converting, copy, move), every assignment operator '
             '(owning = constant / mutable mapping view, copy, move; mapping = owning / mapping / constant mapping, move), resize(sizes) / resize(dims), data() of tensor_vector_storage_t, '
             'tensor_carray_storage_t, tensor_marray_storage_t, tensor_base_t (dims, size, _resize, constructors, assignment) and the converting constructors / operator= of tensor_t: after the '
             'conversion the destination has the source\'s dims, destination element i == the source\'s element i AS IT WAS BEFORE THE CALL (ghost index), an owning destination owns live memory '
@@ -305,11 +364,12 @@ def build(tier):
             'GENUINE DEFECT kept as failing obligations (tensor_t<R>::tslice/callee offset0 ASSERTED precondition ...): tslice admits begin == end == dims[0] (its own assert: begin <= end <= '
             'size<0>()) but then calls offset0(begin), whose assert (get_index0: index < dims[0]) rejects it; t.slice(n, n) and empty.slice(0, 0) abort in debug builds. The arithmetic itself is '
             'right (all other tslice obligations are proved for the whole range through the end-inclusive contract of offset0)'],
-        'not_decided': ['storage conversions for ranks >= 2 (the storage classes are rank-generic text; the CBMC targets instantiate rank 1, where size() is the extent itself), '
-                        'implicit member destruction (~tensor_vector_storage_t has no statement in the AST), allocation failure (std::bad_alloc path)', 'summed-area table VALUES for ranks >= 2 and for floating-point outputs',
+        'not_decided': ['storage conversions: ranks >= 4; at ranks 2, 3 most operations run in the thorough tier only, '
+                        'implicit member destruction (~tensor_vector_storage_t has no statement in the AST), allocation failure (std::bad_alloc path)', 'summed-area table VALUES: rank 3; the border cells of rank 2 (row 0 / column 0, where the recurrence has fewer terms); the region-sum formula as such (it follows from the recurrence by '
+                        'telescoping: an induction over the region that is not mechanised here); floating-point outputs',
                         'Eigen Map construction itself (map_vector / map_matrix / map_tensor are constructors: their result is modelled as (pointer, extent))',
-                        'detail::copy on rank >= 2 tensors (assigns tensor_map_t temporaries: object semantics) -- in the three-tensor remove_if target it is an ASSUMED contract (row idst := row isrc, rows in range checked)',
-                        'make_dims / cat_dims (aggregate initialisation of std::array)', 'tensor.h numeric helpers (zero, full, random, min, max, ... : Eigen expressions over vector())'],
+'tensor.h numeric helpers (zero, full, random, min, max, ... : Eigen expressions over vector())',
+                        'include/nano/tensor/stack.h (stack: the copied blocks tile the destination) -- not under contract yet'],
         'assumptions': ['tensor invariant: every extent >= 0 and every suffix product of the extents <= 2^62 (precondition, reported)',
                         'template arguments of calls inside templates are read from the source text and evaluated under the instantiation bindings',
                         'std::accumulate over a std::array range (wplib, used only if the source calls it): [accumulate] semantics with the accumulator of the type of init, the partial result '
@@ -323,15 +383,21 @@ def build(tier):
                         'indexed(indices, mem&) / indexed(indices): the gathered shape is itself a valid tensor shape: indices.size() * P_1 <= 2^62',
                         'Eigen (ASSUMED contracts): Map = expr and Map += Map copy / add coefficient k to coefficient k and require equal lengths (Eigen asserts it; a Map cannot be resized), '
                         'cast<T>() keeps the coefficients, vector.resize(n) allocates n coefficients',
-                        'make_dims(sizes...) is the array of its arguments; std::array copy assignment is element-wise',
+                        'std::array copy assignment is element-wise; aggregate initialisation of std::array<long, N> from a braced list ([dcl.init.aggr]: element k from initialiser k, '
+                        'the rest value-initialised) and std::copy between two std::arrays at constant iterator positions ([alg.copy]; range / room / overlap preconditions are obligations) '
+                        'are wplib vocabulary (engine/wplib.py aggregate_array, h_std_copy)',
                         'remove_if: op is a pure function of the index (libnano\'s callers read tensors that remove_if is compacting, but only at positions >= curr, which are still original); '
                         'all tensors passed together have the same size<0>() (true of the three call sites: slices [0, m_size) of equally long buffers)',
+                        'integral_t<2>::get values: rows of at most 10^6 elements (the domain of the CBMC-proved rank-1 contract) and M * size() <= 2^62 with M the magnitude bound of the input scalar '
+                        '(128 / 2^31); Eigen Map += Map adds coefficient k to coefficient k in the output scalar type (ASSUMED); the input cells are arbitrary values of the input scalar type',
                         'integral_t<1>::get: tensors of at most 10^6 elements (bound on the symbolic array length; keeps |running sum| <= 2^31 * 10^6 < 2^63)',
                         'Eigen vector model {heap block, length} (ASSUMED, truthful about the order of effects; specs/C16/storage.h): vector(n) allocates; vector(map) / vector(v) allocate fresh storage '
                         'THEN copy; v = map / v = w release + allocate when the sizes differ THEN copy from the source pointer; v = std::move(w) and swap exchange the blocks; resize(n) releases + '
                         'allocates when the size changes; ~vector releases; map = map needs equal lengths and no partial overlap (the source range is the destination range itself or a separate block); '
                         'a copy reads the WHOLE source range (asserted readable at that moment) and is tracked at the ghost index; allocation does not fail (std::bad_alloc path out of scope)',
-                        'storage targets: tensors of at most 10^6 elements; the moved-from state of an owning storage is unspecified (not constrained); owning storages of rank 1 (size() == dims[0])',
+                        'storage targets: tensors of at most 10^6 elements; the moved-from state of an owning storage is unspecified (not constrained); ranks 2, 3: nano::size(dims) / size() is an '
+                        'uninterpreted function of the extents with values in [0, 10^6] on valid shapes (that it IS the product, >= 0, is proved on the SMT side: size<R>, tensor_base_t<R>::size); '
+                        'size<k>() == dims[k] (proved on the SMT side)',
                         'CBMC pointer shell: the ghost results of offset0 / size(dims0) / the slice extent satisfy the SMT-proved clauses (generated from the same clause functions) and lie in [0, size]'],
         'trusted': ['std::get<I>(std::array) returns element I', 'std::array::fill', 'std::array::operator[] with a constant index', 'range-based for over std::array<T, N> runs exactly N iterations in index order'],
     }
